@@ -42,21 +42,52 @@ class DictMixin:
             return None
         return self.U.z3sort(OPT(d.sort.args[1])).is_some(self.dict_lookup(d, item, st))
 
-    def dict_getitem(self, b0, idx, st):
+    def dict_getitem(self, b0, idx, st, base=None):
         d = self.dict_cur(b0, st)
         if d is None:
             return None
-        return self._dict_getitem(d, idx, st)
+        return self._dict_getitem(d, idx, st, base)
 
-    def _dict_getitem(self, d, idx, st):
+    def _dict_getitem(self, d, idx, st, base=None):
         o = self.dict_lookup(d, idx, st)
+        key = self.dict_key(d, idx, st)
         osort = OPT(d.sort.args[1])
         dt = self.U.z3sort(osort)
+        vs = d.sort.args[1]
         for e, s2 in self.guard(st, dt.is_some(o), "KeyError", "key present"):
             if e is not None:
                 yield e, s2
+            elif vs.kind == "rec" and self.U.records[vs.name].mutable and isinstance(base, VRef):
+                # element of a container of mutable objects: thaw it into a heap object; it is written
+                # back into the container before any clause / callee looks at the container again
+                yield self.thaw(dt.val(o), vs, s2, (base.ref, key)), s2
             else:
-                yield self.from_term(dt.val(o), d.sort.args[1], s2), s2
+                yield self.from_term(dt.val(o), vs, s2), s2
+
+    def thaw(self, term, so: Sort, st, origin):
+        for dref, key, oref in st.writebacks:
+            if dref == origin[0] and z3.simplify(key).eq(z3.simplify(origin[1])):
+                return VRef(oref)
+        decl = self.U.records[so.name]
+        dt = self.U.z3sort(so)
+        r = new_ref()
+        fields = {}
+        for idx, (f, fs) in enumerate(decl.fields):
+            val = self.from_term(dt.accessor(0, idx)(term), fs, st)
+            if isinstance(val, VSeq) and not val.is_str:
+                val = self.box_list(val, st)
+            fields[f] = val
+        st.heap[r] = ObjState(so.name, fields)
+        st.writebacks.append((origin[0], origin[1], r))
+        return VRef(r)
+
+    def flush_writebacks(self, st):
+        for dref, key, oref in st.writebacks:
+            d = st.heap[dref]
+            obj = st.heap[oref]
+            so = d.sort.args[1]
+            osort = OPT(so)
+            st.heap[dref] = V(d.sort, z3.Store(d.t, key, self.U.z3sort(osort).some(self.to_term(obj, so, st))))
 
     def dict_setitem(self, base, idx, val, st):
         d = self.dict_cur(base, st)
